@@ -83,7 +83,9 @@ var (
 )
 
 // codeSlots stores the 12 words of its call data into storage slots 0..11 (a zero word clears the slot).
-var codeSlots = []byte{0x60, 0x00, 0x5b, 0x80, 0x60, 0x20, 0x02, 0x35, 0x81, 0x55, 0x60, 0x01, 0x01, 0x80, 0x60, 0x0c, 0x11, 0x60, 0x02, 0x57, 0x00}
+// (it ends with LOG1(topic 7, empty data): receipts then carry a log, whose stored form names the block)
+var codeSlots = []byte{0x60, 0x00, 0x5b, 0x80, 0x60, 0x20, 0x02, 0x35, 0x81, 0x55, 0x60, 0x01, 0x01, 0x80, 0x60, 0x0c, 0x11, 0x60, 0x02, 0x57,
+	0x60, 0x07, 0x60, 0x00, 0x60, 0x00, 0xa1, 0x00}
 
 // slotsData: pattern 1 fills all 12 slots, pattern 2 overwrites 11 of them and clears one.
 func slotsData(pattern int, salt byte) []byte {
@@ -338,6 +340,7 @@ type blockDigest struct {
 	GasUsed     uint64 `json:"gasUsed"`
 	TxsResult   string `json:"txsResult"` // hash of the encoded TxsResult (bloom, outputs, key images, special txs, candidates)
 	Receipts    string `json:"receipts"`  // hash of the encoded receipts incl. logs
+	LogMeta     string `json:"logMeta"`   // block / transaction coordinates of every stored log
 }
 
 func hashOf(v interface{}) string {
@@ -362,6 +365,17 @@ func (r *replica) digestAt(h uint64) blockDigest {
 	}
 	if rc := r.env.BS.GetReceipts(h); rc != nil {
 		d.Receipts = hashOf(rc)
+		// the stored form of a log also names its block and transaction (fields outside the consensus encoding)
+		meta := ""
+		for _, rcp := range *rc {
+			for _, l := range rcp.Logs {
+				meta += fmt.Sprintf("[%x blk=%x tx=%x txi=%d idx=%d n=%d]", l.Address[16:], l.BlockHash[:6], l.TxHash[:6], l.TxIndex, l.Index, l.BlockNumber)
+			}
+		}
+		if meta != "" && b.Hash().Hex() != "" {
+			meta += fmt.Sprintf(" block=%x", b.Hash().Bytes()[:6])
+		}
+		d.LogMeta = meta
 	}
 	return d
 }
@@ -804,10 +818,10 @@ func Run(c *core.Ctx, focus string) {
 				// confidential transactions carry fresh random keys in every process: only the
 				// account-side results are comparable across processes
 				for i := range d0 {
-					d0[i].ReceiptHash, d0[i].TxsResult, d0[i].Receipts = "", "", ""
+					d0[i].ReceiptHash, d0[i].TxsResult, d0[i].Receipts, d0[i].LogMeta = "", "", "", ""
 				}
 				for i := range d1 {
-					d1[i].ReceiptHash, d1[i].TxsResult, d1[i].Receipts = "", "", ""
+					d1[i].ReceiptHash, d1[i].TxsResult, d1[i].Receipts, d1[i].LogMeta = "", "", "", ""
 				}
 			}
 			if fmt.Sprint(d0) != fmt.Sprint(d1) {
